@@ -104,4 +104,61 @@ TEXT = {
         level_note=NOTE,
         technique="property-based testing: invariants over recorded step histories with an independent geometry oracle; libFuzzer",
     ),
+    "C02": dict(
+        level_text="Generated problems transported with the real Stepper; a lock-step population model built from read-only slot snapshots at "
+                   "user_start/user_post of every call checks uniqueness of (event, track id) among slots, no id re-use, parent-before-child, "
+                   "exactly-once ending, StepperResult counters vs the model, active(k) = alive(k-1) + min(vacancies, queued), termination and "
+                   "created == ended. Exploration.",
+        design_ref="DESIGN.md §4 C02",
+        level_note=NOTE,
+        technique="model-based property testing (population model in lock step with the stepping loop) on generated histories; libFuzzer",
+    ),
+    "C06": dict(
+        level_text="Differential/metamorphic: the target event on a fresh state with TrackOrder::none vs the same event (same reseed id, up to 2^40) "
+                   "after a generated prefix history (completed events, aborted event + reset_state, warm_up) under a re-index policy / action timing / "
+                   "status checker: step streams and StepperResult sequences must be bit-identical. Exploration.",
+        design_ref="DESIGN.md §4 C06",
+        level_note=NOTE,
+        technique="differential property testing (bitwise stream equality across generated histories and options); libFuzzer",
+    ),
+    "C16": dict(
+        level_text="Fault enumeration over storage capacities on generated problems: secondary stack capacity 1..8 (ledger of C01 must stay exact, "
+                   "failed interactions emit nothing and are retried) and initializer capacity 1..16 (clean 'insufficient capacity' error, then "
+                   "reset_state and a bit-identical follow-up event).",
+        design_ref="DESIGN.md §4 C16",
+        level_note=NOTE,
+        technique="fault injection by capacity starvation + energy-ledger / differential oracles on generated problems; libFuzzer",
+    ),
+    "C17": dict(
+        level_text="Generated callback sets (selections, detector maps, non-zero filter), SimpleCalo, ActionDiagnostic and StepDiagnostic on generated "
+                   "problems, compared with the unfiltered truth stream of a twin world: exactly-once delivery under the combined filters, bitwise "
+                   "field equality, empty unselected collections, tallies = sums over the truth, invalid mixtures rejected. Exploration.",
+        design_ref="DESIGN.md §4 C17",
+        level_note=NOTE,
+        technique="differential property testing against an unfiltered reference stream; libFuzzer",
+    ),
+    "C08": dict(
+        level_text="Generated particle/field/geometry/start/step/driver-option/integrator combinations (incl. on-boundary, tangent and grazing starts, "
+                   "subdivided steps) checked for momentum conservation, distance bounds, the result/geometry trichotomy, agreement with the analytic "
+                   "helix within a stated error model, no boundary jumped along the helix (independent geometry oracle) and subdivision independence. Exploration.",
+        design_ref="DESIGN.md §4 C08",
+        level_note=NOTE,
+        technique="property-based testing vs analytic helix + independent geometry oracle; libFuzzer",
+    ),
+    "C11": dict(
+        level_text="Generated interior points (all nesting levels, rotated daughters, array cells) in generated/bundled geometries: safety >= 0, "
+                   "32 rays (incl. rays aimed at the oracle's nearest point of every surface on the path) travel at least the safety by the navigator "
+                   "and by an exact long-double search, and 32 points in the safety ball are located in the same volume path. Exploration.",
+        design_ref="DESIGN.md §4 C11",
+        level_note=NOTE,
+        technique="property-based testing with an independent geometry oracle (directed + random probes); libFuzzer",
+    ),
+    "C19": dict(
+        level_text="Generated raw inputs (mutated: tolerances, labels, every surface type incl. involutes, all transform kinds, arrays), construction-API "
+                   "models and all 28 bundled files: field-by-field bitwise comparison after write->read (object and text paths), idempotence of the "
+                   "JSON, and bit-identical ray traces of OrangeParams built from both. Exploration.",
+        design_ref="DESIGN.md §4 C19",
+        level_note=NOTE,
+        technique="round-trip property testing (write/read, idempotence, differential navigation); libFuzzer",
+    ),
 }
